@@ -4,8 +4,12 @@ from .. import forest as FO
 
 ID = "C15"
 LEAN_MODULE = "Ucfg.Props.C15"
-CORRESPONDENCE = "Forest model ~ histories over several configs observed through VerifFingerprint (build tag verif) and Path/Parent/FlattenedKeys/CompareConfigs"
-TRUSTED_BASE = ["Lean 4 kernel", "the fingerprint hook verif_fingerprint.go (add-only, build tag verif)", "correspondence harness"]
+CORRESPONDENCE = ("Model/Forest.lean (heap of nodes with stored contexts: cpy, appendCpy, setAt, delAt, SetValue, attach, storedPath) composed by "
+                  "Driver/ForestDrv.lean ~ histories over several configs dumped after every step through VerifFingerprint (build tag verif): node "
+                  "identities up to renaming, stored parents and names, values, Path(), Parent()")
+TRUSTED_BASE = ["Lean 4 kernel", "the fingerprint hook verif_fingerprint.go (add-only, build tag verif)",
+                "Driver/ForestDrv.lean composes the proved primitives into Merge/NewFrom/Set*/Remove/SetChild (glue, compared on every history up to the first step it does not cover: references, nulls meeting objects, dotted source keys, missing intermediate nodes)",
+                "addresses as identities (the worker switches the garbage collector off for the duration of a history)", "correspondence harness"]
 ASSUMPTIONS = []
 RULE = ("reference-free histories over up to 5 configs (creation, merges with every list policy incl. embedded configs, Set*, Remove from "
         "the middle of lists, Child handles, SetChild) observed after every step. Oracle: every node below a root stores the name/index and "
